@@ -367,7 +367,8 @@ func (v *Validators) PayRewardsV3(height uint64, period int64) (moreRewards *big
 
 		stakes := v.bus.Candidates().GetStakes(validator.PubKey)
 		for _, stake := range stakes {
-			if stake.BipValue.Sign() == 0 {
+			// a validator punished for double signing in this very block has total stake 0
+			if stake.BipValue.Sign() == 0 || validator.GetTotalBipStake().Sign() == 0 {
 				continue
 			}
 
@@ -493,7 +494,8 @@ func (v *Validators) PayRewardsV5Fix(height uint64, period int64) (moreRewards *
 
 		stakes := v.bus.Candidates().GetStakes(validator.PubKey)
 		for _, stake := range stakes {
-			if stake.BipValue.Sign() == 0 {
+			// a validator punished for double signing in this very block has total stake 0
+			if stake.BipValue.Sign() == 0 || validator.GetTotalBipStake().Sign() == 0 {
 				continue
 			}
 
@@ -689,7 +691,8 @@ func (v *Validators) PayRewardsV5Bug(height uint64, period int64) (moreRewards *
 
 		stakes := v.bus.Candidates().GetStakes(validator.PubKey)
 		for _, stake := range stakes {
-			if stake.BipValue.Sign() == 0 {
+			// a validator punished for double signing in this very block has total stake 0
+			if stake.BipValue.Sign() == 0 || validator.GetTotalBipStake().Sign() == 0 {
 				continue
 			}
 
@@ -905,7 +908,8 @@ func (v *Validators) PayRewardsV4(height uint64, period int64) (moreRewards *big
 
 		stakes := v.bus.Candidates().GetStakes(validator.PubKey)
 		for _, stake := range stakes {
-			if stake.BipValue.Sign() == 0 {
+			// a validator punished for double signing in this very block has total stake 0
+			if stake.BipValue.Sign() == 0 || validator.GetTotalBipStake().Sign() == 0 {
 				continue
 			}
 
